@@ -18,14 +18,14 @@ package specs
 //@        exists(j, i < j && j < len(kind), kind[j] == '.'))
 //@ pred noSlashBefore(s string, i int) = forall(t, 0 <= t && t < i, s[t] != '/')
 
-//@ pred F040(spec *Spec) = MountTyped(&spec.ContainerEdits) ||
+//@ opaque pred F040(spec *Spec) = MountTyped(&spec.ContainerEdits) ||
 //@        exists(k, 0 <= k && k < len(spec.Devices), MountTyped(&spec.Devices[k].ContainerEdits))
-//@ pred F050(spec *Spec) = HostPathUsed(&spec.ContainerEdits) ||
+//@ opaque pred F050(spec *Spec) = HostPathUsed(&spec.ContainerEdits) ||
 //@        exists(k, 0 <= k && k < len(spec.Devices), HostPathUsed(&spec.Devices[k].ContainerEdits) || DigitName(spec.Devices[k].Name))
-//@ pred F060(spec *Spec) = exists(a, string, true, has(spec.Annotations, a)) ||
+//@ opaque pred F060(spec *Spec) = exists(a, string, true, has(spec.Annotations, a)) ||
 //@        exists(k, 0 <= k && k < len(spec.Devices), exists(a, string, true, has(spec.Devices[k].Annotations, a))) ||
 //@        DottedClass(spec.Kind)
-//@ pred F070(spec *Spec) = RdtOrGids(&spec.ContainerEdits) ||
+//@ opaque pred F070(spec *Spec) = RdtOrGids(&spec.ContainerEdits) ||
 //@        exists(k, 0 <= k && k < len(spec.Devices), RdtOrGids(&spec.Devices[k].ContainerEdits))
 
 //@ func requiresV100(spec *Spec) (r bool)
@@ -37,18 +37,21 @@ package specs
 
 //@ func requiresV070(spec *Spec) (r bool)
 //@   pure
+//@   reveal F070
 //@   requires spec != nil
 //@   ensures[C06] r == F070(spec)
 //@   loop 1 invariant forall(k, 0 <= k && k < #i, !RdtOrGids(&spec.Devices[k].ContainerEdits))
 
 //@ func requiresV060(spec *Spec) (r bool)
 //@   pure
+//@   reveal F060
 //@   requires spec != nil
 //@   ensures[C06] r == F060(spec)
 //@   loop 1 invariant forall(k, 0 <= k && k < #i, forall(a, string, true, !has(spec.Devices[k].Annotations, a)))
 
 //@ func requiresV050(spec *Spec) (r bool)
 //@   pure
+//@   reveal F050
 //@   requires spec != nil
 //@   ensures[C06] r == F050(spec)
 //@   loop 1 invariant len(edits) == #i && (base(edits) == 0 || fresh(edits))
@@ -58,9 +61,56 @@ package specs
 
 //@ func requiresV040(spec *Spec) (r bool)
 //@   pure
+//@   reveal F040
 //@   requires spec != nil
 //@   ensures[C06] r == F040(spec)
 //@   loop 1 invariant len(edits) == #i && (base(edits) == 0 || fresh(edits))
 //@   loop 1 invariant forall(k, 0 <= k && k < #i, edits[k] == &spec.Devices[k].ContainerEdits)
 //@   loop 2 invariant forall(k, 0 <= k && k < #i, !MountTyped(#slice[k]))
 //@   loop 3 invariant forall(j, 0 <= j && j < #i, #slice[j] == nil || #slice[j].Type == "")
+
+// The version table: which predicate belongs to which released version.
+//@ pred Req(v string, spec *Spec) = (v == "v0.4.0" && F040(spec)) || (v == "v0.5.0" && F050(spec)) ||
+//@        (v == "v0.6.0" && F060(spec)) || (v == "v0.7.0" && F070(spec))
+//@ fn MinVer(spec *Spec) = ite(F070(spec), "v0.7.0", ite(F060(spec), "v0.6.0", ite(F050(spec), "v0.5.0",
+//@        ite(F040(spec), "v0.4.0", "v0.3.0"))))
+//@ pred Released(v string) = v == "v0.1.0" || v == "v0.2.0" || v == "v0.3.0" || v == "v0.4.0" || v == "v0.5.0" ||
+//@        v == "v0.6.0" || v == "v0.7.0" || v == "v0.8.0" || v == "v1.0.0"
+
+//@ func newVersion(v string) (r version)
+//@   pure
+//@   deterministic
+//@   ensures[C06] r == "v" + TrimPrefix(v, "v")
+//@ func (v version) String() (r string)
+//@   pure
+//@   ensures[C06] r == TrimPrefix(v, "v")
+//@ func (v version) isGreaterThan(o version) (r bool)
+//@   pure
+//@   ensures[C06] r == (semverCmp(v, o) > 0)
+//@ func (v version) isLatest() (r bool)
+//@   pure
+//@   ensures[C06] r == (v == "v1.0.0")
+
+//@ func (m requiredVersionMap) isValidVersion(specVersion string) (r bool)
+//@   pure
+//@   ensures[C06] r == Released(newVersion(specVersion))
+
+//@ func (m requiredVersionMap) requiredVersion(spec *Spec) (r version)
+//@   pure
+//@   requires spec != nil
+//@   ensures[C06] r == MinVer(spec)
+//@   loop 1 invariant minVersion == "v0.3.0" || (has(#seen, minVersion) && Req(minVersion, spec))
+//@   loop 1 invariant Released(minVersion)
+//@   loop 1 invariant forall(k, string, has(#seen, k) && Req(k, spec), semverCmp(k, minVersion) <= 0)
+
+//@ func MinimumRequiredVersion(spec *Spec) (v string, err error)
+//@   pure
+//@   requires spec != nil
+//@   ensures[C06] err == nil && v == TrimPrefix(MinVer(spec), "v")
+
+//@ func ValidateVersion(spec *Spec) (err error)
+//@   pure
+//@   requires spec != nil
+//@   ensures[C06,C05] iff(err == nil, Released(newVersion(spec.Version)) &&
+//@                        !(semverCmp(MinVer(spec), newVersion(spec.Version)) > 0))
+//@   assert at return: newVersion(TrimPrefix(MinVer(spec), "v")) == MinVer(spec)
